@@ -1,5 +1,6 @@
 From Coq Require Import Extraction ExtrOcamlBasic.
-From Mamba Require Import Canon.AutBase Canon.Aut Canon.Group Canon.Orbit Canon.GroupOrder Canon.AutCheck.
+From Mamba Require Import Canon.AutBase Canon.Aut Canon.Group Canon.Orbit Canon.GroupOrder Canon.AutCheck Canon.GroupEdgeless Canon.AutReset.
 Extraction Language OCaml.
 Extraction "model.ml" adj_of cls_of is_automorphism labels_of_ds orbits_of group_order
-  aut_bruteforce check_full check_partial.
+  aut_bruteforce check_full check_partial edgeless_gens edgeless_ds
+  AutReset.reset AutReset.new_op AutReset.visible AutReset.isort.
